@@ -224,14 +224,24 @@ def gen(repo):
         common = "CommonEqualSize"
     else:
         raise ExtractError("get_missing_files: definition of `common` not recognised")
-    if not re.search(r"\.filter\(\|\(id, _\)\| !common\.contains\(id\) && is_relevant\(id\)\)", g):
-        raise ExtractError("get_missing_files: retain filter not recognised")
-    if not re.search(r"let \(cold_only, cold_only_size\) = retain\(cold_files\); let \(hot_only, hot_only_size\) = retain\(hot_files\); Ok\(\(cold_only, cold_only_size, hot_only, hot_only_size\)\)", g):
-        raise ExtractError("get_missing_files: result tuple not recognised")
-    out.append("(* get_missing_files: ids on both sides count as common iff the sizes are equal; everything")
-    out.append("   relevant that is not common is copied (cold-only to hot, hot-only to cold) *)")
-    out.append("Inductive common_rule := CommonEqualSize.")
+    old_shape = (re.search(r"\.filter\(\|\(id, _\)\| !common\.contains\(id\) && is_relevant\(id\)\)", g)
+                 and re.search(r"let \(cold_only, cold_only_size\) = retain\(cold_files\); let \(hot_only, hot_only_size\) = retain\(hot_files\); Ok\(\(cold_only, cold_only_size, hot_only, hot_only_size\)\)", g))
+    new_shape = (re.search(r"let cold_ids: BTreeSet<_> = cold_files\.keys\(\)\.copied\(\)\.collect\(\);", g)
+                 and re.search(r"let retain = \|files: BTreeMap<_, _>, exclude: &BTreeSet<Id>\|", g)
+                 and re.search(r"\.filter\(\|\(id, _\)\| !exclude\.contains\(id\) && is_relevant\(id\)\)", g)
+                 and re.search(r"let \(cold_only, cold_only_size\) = retain\(cold_files, &common\); let \(hot_only, hot_only_size\) = retain\(hot_files, &cold_ids\); Ok\(\(cold_only, cold_only_size, hot_only, hot_only_size\)\)", g))
+    if old_shape and not new_shape:
+        rule = "HotOnlyNotCommon"
+    elif new_shape and not old_shape:
+        rule = "HotOnlyNotInCold"
+    else:
+        raise ExtractError("get_missing_files: retain filter / result tuple not recognised")
+    out.append("(* get_missing_files: ids on both sides count as common iff the sizes are equal; relevant cold ids")
+    out.append("   that are not common are copied to hot; relevant hot ids are copied to cold when they are")
+    out.append("   not common (HotOnlyNotCommon, the tree before the fix) / not in cold at all (HotOnlyNotInCold) *)")
     out.append("Definition repair_common_rule : common_rule := %s." % common)
+    out.append("Definition repair_hot_only_rule : hot_only_rule := %s." % rule)
+    meta["hot_only_rule"] = rule
     # config.rs
     cf = read(repo, "crates/core/src/commands/config.rs")
     b = fn_body(cf, "save_config")
